@@ -56,6 +56,7 @@ type c19Profile struct {
 type c19MUser struct {
 	hasHash  bool
 	password string
+	previous string // the password that the current one replaced ("" = none): no longer a credential
 	profile  c19Profile
 }
 
@@ -472,10 +473,14 @@ func (w *c19World) step(act c19Action, faultAt int, faultErr error) {
 		u := act.a
 		p := c19Profile{Name: u, Email: u + fmt.Sprintf("+%d@example.com", act.n), CommonName: "CN " + u + fmt.Sprint(act.n), Surname: "S" + fmt.Sprint(act.n), GivenName: "G" + u, Groups: []string{"g" + fmt.Sprint(act.n)}}
 		body := map[string]any{"name": "ignored", "email": p.Email, "common_name": p.CommonName, "surname": p.Surname, "given_name": p.GivenName, "groups": p.Groups}
-		pw := ""
-		if act.b == "with-password" {
-			pw = fmt.Sprintf("pw-%s-%d", u, act.n)
+		pw, setPw := "", false
+		switch act.b {
+		case "with-password":
+			pw, setPw = fmt.Sprintf("pw-%s-%d", u, act.n), true
 			body["password"] = pw
+		case "empty-password": // a password member that is present and empty replaces the password like any other value
+			setPw = true
+			body["password"] = ""
 		}
 		rep := w.do(desc, jsonReq("PUT", "/users/"+u, body), faultAt, faultErr)
 		expectStatus(rep, 204)
@@ -486,7 +491,10 @@ func (w *c19World) step(act c19Action, faultAt int, faultErr error) {
 				m.users[u] = mu
 			}
 			mu.profile = p
-			if pw != "" {
+			if setPw {
+				if mu.hasHash && mu.password != pw {
+					mu.previous = mu.password
+				}
 				mu.hasHash, mu.password = true, pw
 			}
 		}
@@ -596,6 +604,9 @@ func (w *c19World) step(act c19Action, faultAt int, faultErr error) {
 				user, pw = w.creds(act.b2user(), "right")
 				if act.n%2 == 0 {
 					user, pw = w.creds(act.b2user(), "wrong")
+				}
+				if act.n%5 == 4 {
+					user, pw = w.creds(act.b2user(), "previous-password")
 				}
 				form.Set("user", user)
 				form.Set("password", pw)
@@ -865,10 +876,15 @@ func (w *c19World) syncHashes() {
 func (w *c19World) creds(user, kind string) (string, string) {
 	mu := w.model.users[user]
 	right := "pw-" + user
-	if mu != nil && mu.password != "" {
+	if mu != nil && mu.hasHash {
 		right = mu.password
 	}
 	switch kind {
+	case "previous-password":
+		if mu != nil && mu.previous != "" {
+			return user, mu.previous
+		}
+		return user, right + "-old"
 	case "right":
 		return user, right
 	case "wrong":
@@ -920,8 +936,11 @@ func c19RandomAction(c *core.Ctx, w *c19World) c19Action {
 	switch k := r.Intn(40); {
 	case k < 3:
 		b := "without-password"
-		if r.Intn(12) == 0 {
+		switch r.Intn(12) {
+		case 0, 1:
 			b = "with-password" // default-cost bcrypt: expensive, sampled
+		case 2:
+			b = "empty-password"
 		}
 		return c19Action{"putUser", users[r.Intn(3)], b, r.Intn(100)}
 	case k < 5:
@@ -939,7 +958,7 @@ func c19RandomAction(c *core.Ctx, w *c19World) c19Action {
 	case k < 14:
 		return c19Action{"delShortcut", "sc1", "", 0}
 	case k < 19:
-		return c19Action{"login", users[r.Intn(3)], []string{"right", "right", "wrong", "empty", "other-users-password", "unknown-user", "empty-user"}[r.Intn(7)], 0}
+		return c19Action{"login", users[r.Intn(3)], []string{"right", "right", "wrong", "empty", "other-users-password", "unknown-user", "empty-user", "previous-password"}[r.Intn(8)], 0}
 	case k < 28:
 		return c19Action{"sso", sps[r.Intn(3)], cookies[r.Intn(len(cookies))], r.Intn(12)}
 	case k < 32:
